@@ -9,4 +9,12 @@ for d in $(ls seeded); do
   nv=$(echo "$out" | grep -c "^VIOLATION")
   echo "{\"seed\":\"$d\",\"property\":\"$p\",\"check\":\"./check $p quick\",\"exit\":$code,\"violations\":$nv,\"detected\":$([ "$code" = "1" ] && echo true || echo false),\"first_finding\":\"$what\"}" > seeded/$d/detection.json
   echo "$d -> exit=$code violations=$nv"
+  if [ -f seeded/$d/also_check ]; then
+    q=$(cat seeded/$d/also_check)
+    out2=$(tools/seedtest.sh seeded/$d $q quick 2>&1)
+    code2=$(echo "$out2" | grep -oE "exit=[0-9]+" | tail -1 | cut -d= -f2)
+    what2=$(echo "$out2" | grep -E "^  what:" | head -1 | sed 's/^  what: //; s/"/\\"/g' | cut -c1-400)
+    echo "{\"seed\":\"$d\",\"property\":\"$q\",\"check\":\"./check $q quick\",\"exit\":$code2,\"detected\":$([ "$code2" = "1" ] && echo true || echo false),\"first_finding\":\"$what2\"}" > seeded/$d/detection_$q.json
+    echo "$d (also $q) -> exit=$code2"
+  fi
 done
